@@ -13,6 +13,9 @@ structure Tables where
   fileGroups : List (List Char × List Char)
   ruleAlphabet : List String
   requirements : List (String × List (String × List (List Char)))
+  /-- kinds present in `requirementsWeights` (computed in an `init` that runs before the files sorting after
+  template.go have registered their requirements) -/
+  weightKinds : List String
 deriving Repr
 
 def lowerC (c : Char) : Char :=
@@ -132,7 +135,7 @@ def sortCmp (T : Tables) (a b : Rule) : Int :=
 /-- stable insertion sort (the reference for `slices.SortFunc` on inputs without ties) -/
 def insertBy {α : Type} (cmp : α → α → Int) (x : α) : List α → List α
   | [] => [x]
-  | y :: ys => if cmp x y < 0 then x :: y :: ys else y :: insertBy cmp x ys
+  | y :: ys => if cmp x y ≤ 0 then x :: y :: ys else y :: insertBy cmp x ys
 
 def sortBy {α : Type} (cmp : α → α → Int) : List α → List α
   | [] => []
